@@ -26,7 +26,8 @@ type c08Case struct {
 	Bulk   int         `json:"bulk"` // rows inserted (and flushed) before phase 1: a table over several leaves
 	Cols   []model.Col `json:"cols"`
 	Phase1 []c08Op     `json:"phase1"` // before flush / eviction / clean restart
-	Phase2 []c08Op     `json:"phase2"` // after the restart, ended by a crash
+	Phase2 []c08Op     `json:"phase2"` // after the restart, ended by a crash - or by
+	Reopen bool        `json:"reopen"` // the session switching to another database and back
 }
 
 const c08Table = "vals"
@@ -247,6 +248,7 @@ func c08Gen(rt *rapid.T) c08Case {
 	}
 	c.Phase1 = c08Ops(rt, c.Cols, db, &rid, rapid.IntRange(2, 14).Draw(rt, "n1"))
 	c.Phase2 = c08Ops(rt, c.Cols, db, &rid, rapid.IntRange(1, 8).Draw(rt, "n2"))
+	c.Reopen = rapid.IntRange(0, 2).Draw(rt, "reopen") == 0
 	return c
 }
 
@@ -357,6 +359,16 @@ func c08Run(c c08Case, st *vlib.Stats) string {
 	reloads++
 	if msg := apply(c.Phase2, "phase 2"); msg != "" {
 		return msg
+	}
+	if c.Reopen {
+		// USE another database and back: the store is closed (flushed) and the file
+		// opened again without the start-up log replay
+		if err := Reopen(eng); err != nil {
+			return "switching databases failed: " + err.Error()
+		}
+		if msg := CompareAll(eng, m, nil); msg != "" {
+			return "after USE of another database and back: " + msg
+		}
 	}
 	// crash + recovery: the values only live in the log
 	eng.Crash(true)
